@@ -59,3 +59,87 @@ Example old_code_refuted_hook_config :
   let h := [mkRun 0 PNone None 0; mkRun 0 PFile (Some (FkTaskPanic, 2)) 0] in
   fst (do_history_old (mkPO None []) h) = [[]; []] /\ map expected h = [[]; [EmFile]].
 Proof. vm_compute. split; reflexivity. Qed.
+
+(* ================= PortfolioRunner ================= *)
+Lemma pf_join_acc rs : forall acc,
+  fold_left (fun acc r => match r with Some e => Some e | None => acc end) rs acc =
+  match pf_join rs with Some e => Some e | None => acc end.
+Proof.
+  unfold pf_join. induction rs as [|r rs IH]; intros acc; cbn [fold_left]; [reflexivity|].
+  rewrite IH. rewrite (IH (match r with Some e => Some e | None => None end)).
+  destruct (fold_left _ rs None); [reflexivity|]. destruct r; reflexivity.
+Qed.
+
+Lemma pf_join_cons r rs : pf_join (r :: rs) = match pf_join rs with Some e => Some e | None => r end.
+Proof.
+  unfold pf_join at 1. cbn [fold_left]. rewrite pf_join_acc. destruct (pf_join rs); [reflexivity|]. destruct r; reflexivity.
+Qed.
+
+Lemma pf_join_none rs : pf_join rs = None <-> Forall (fun r => r = None) rs.
+Proof.
+  induction rs as [|r rs IH]; [split; [constructor|reflexivity]|].
+  rewrite pf_join_cons. split.
+  - intros H. destruct (pf_join rs) eqn:E; [discriminate|]. constructor; [exact H|]. now apply IH.
+  - intros H. inversion H as [|? ? Hr Hrs]; subst. apply IH in Hrs. now rewrite Hrs.
+Qed.
+
+Lemma pf_join_in rs e : pf_join rs = Some e -> In (Some e) rs.
+Proof.
+  induction rs as [|r rs IH]; [discriminate|]. rewrite pf_join_cons.
+  destruct (pf_join rs) as [e'|] eqn:E.
+  - intros H. injection H as <-. right. now apply IH.
+  - intros ->. now left.
+Qed.
+
+Lemma existsb_is_some rs : existsb is_some rs = is_some (pf_join rs).
+Proof.
+  induction rs as [|r rs IH]; [reflexivity|]. rewrite pf_join_cons. cbn [existsb]. rewrite IH.
+  destruct (pf_join rs); cbn [is_some]; [apply orb_true_r|]. now rewrite orb_false_r.
+Qed.
+
+Lemma portfolio_run_eq stop rs :
+  portfolio_run stop rs = match pf_join rs with Some e => PfMember e | None => PfOk end.
+Proof.
+  unfold portfolio_run, pf_stop_signal. rewrite existsb_is_some.
+  destruct stop; cbn [negb orb andb]; [|reflexivity]. now rewrite eqb_reflx.
+Qed.
+
+(* a portfolio run fails exactly when one of its members does ... *)
+Theorem portfolio_passes_iff stop rs : portfolio_run stop rs = PfOk <-> Forall (fun r => r = None) rs.
+Proof.
+  rewrite portfolio_run_eq, <- pf_join_none. destruct (pf_join rs); split; intros H; try reflexivity; discriminate.
+Qed.
+(* ... by re-raising the payload of a member (the one joined last among the failing ones) ... *)
+Theorem portfolio_payload_of_member stop rs e : portfolio_run stop rs = PfMember e -> In (Some e) rs.
+Proof.
+  rewrite portfolio_run_eq. destruct (pf_join rs) as [e'|] eqn:E; [|discriminate].
+  intros H. injection H as <-. now apply pf_join_in.
+Qed.
+(* ... and never with its own internal assertion *)
+Theorem portfolio_never_asserts stop rs : portfolio_run stop rs <> PfAssert.
+Proof. rewrite portfolio_run_eq. destruct (pf_join rs); discriminate. Qed.
+
+Example portfolio_old_refuted : portfolio_run_old false [None; Some 7; None] = PfAssert /\ portfolio_run false [None; Some 7; None] = PfMember 7.
+Proof. vm_compute. split; reflexivity. Qed.
+
+(* ================= ungraceful-shutdown configuration ================= *)
+Lemma ug_get_set l t x : ug_get (ug_set l t x) t = x.
+Proof.
+  induction l as [|[t' y] r IH]; cbn [ug_set ug_get].
+  - now rewrite Nat.eqb_refl.
+  - destruct (Nat.eqb t t') eqn:E; cbn [ug_get]; [now rewrite Nat.eqb_refl|]. now rewrite E.
+Qed.
+
+(* whatever ran before in the process, on whatever threads and with whatever settings, a run reads its own settings *)
+Theorem ug_effective_is_own h s t cfg : fst (ug_run (ug_history s h) t cfg) = cfg.
+Proof. unfold ug_run. cbn [fst]. apply ug_get_set. Qed.
+
+(* hence a run with the default settings always re-raises the panicking task's own payload *)
+Theorem default_run_reraises_own h s t sw own :
+  panic_result (fst (ug_run (ug_history s h) t ug_default)) sw own = PayOwn own.
+Proof. rewrite ug_effective_is_own. reflexivity. Qed.
+
+Example ug_history_example :
+  fst (ug_run (ug_history [] [(0, mkUg true true); (1, mkUg true false); (0, mkUg false true)]) 0 ug_default) = ug_default
+  /\ ug_get (ug_history [] [(0, mkUg true true); (1, mkUg true false)]) 0 = mkUg true true.
+Proof. vm_compute. split; reflexivity. Qed.
